@@ -193,6 +193,8 @@ BP_ASSUME = [
 BP_RULE = ("rapid draws a scenario = (signal, config{send_batch_size 0-7, send_batch_max_size, timeout 0/200/1000/5000 ms, max_concurrency, early_return[, metadata keys+limit]}, "
            "1-8 requests with 1-3 resources x 0-3 scopes x 0-4 items (metrics: 0-3 metrics x 0-3 points of all five data types, empty containers included), context groups, "
            "up to 24 steps of consume(group of 1-3)/advance(virtual ms around the timeout)/complete|fail(export k)/cancel(ctx)/shutdown) with gated or auto-completing exports; %s; "
+           "failing exports return an ordinary error, a downstream context error or a permanent error (C05, C06, C11); for C05, C06 and C11 a second job runs in processes "
+           "pinned to 2 CPUs, where the shard's input channel (runtime.NumCPU() slots) holds 2 requests and 5-10 callers pile up behind a shard waiting for an export slot; "
            "DISTINCT = FNV-64 of (config, step-kind sequence, per-export (items, contributing requests, failed?))")
 
 PROPS.update({
@@ -204,8 +206,8 @@ PROPS.update({
         "rule": BP_RULE % "NON-TRIVIAL = a request was split across >=2 exports or >=2 requests were merged into one export",
         "assumptions": BP_ASSUME + ["metric.Metadata() is not part of the identity C05 enumerates and is not compared"],
         "jobs": {
-            "quick": [{"test": "TestC05", "shards": 10, "checks": 100000, "timeout": 600}],
-            "thorough": [{"test": "TestC05", "shards": 16, "checks": 1600000, "timeout": 3000}, {"test": "TestC05", "shards": 2, "checks": 60000, "timeout": 3000, "race": True}],
+            "quick": [{"test": "TestC05", "shards": 10, "checks": 100000, "timeout": 600}, {"test": "TestC05", "shards": 3, "checks": 18000, "timeout": 600, "cpus": 2, "env": {"VERIF_FULL_CHANNEL": "1"}}],
+            "thorough": [{"test": "TestC05", "shards": 16, "checks": 1600000, "timeout": 3000}, {"test": "TestC05", "shards": 2, "checks": 60000, "timeout": 3000, "race": True}, {"test": "TestC05", "shards": 4, "checks": 200000, "timeout": 3000, "cpus": 2, "env": {"VERIF_FULL_CHANNEL": "1"}}],
         },
     },
     "C06": {
@@ -216,8 +218,8 @@ PROPS.update({
         "rule": BP_RULE % "NON-TRIVIAL = a request carried by >=2 exports with mixed outcomes, or a context that ended while its request was partially exported",
         "assumptions": BP_ASSUME + ["'wrapping the export failure' is read as: wraps at least one failed carrying export, and no non-carrying one"],
         "jobs": {
-            "quick": [{"test": "TestC06", "shards": 10, "checks": 100000, "timeout": 600}],
-            "thorough": [{"test": "TestC06", "shards": 16, "checks": 1600000, "timeout": 3000}],
+            "quick": [{"test": "TestC06", "shards": 10, "checks": 100000, "timeout": 600}, {"test": "TestC06", "shards": 3, "checks": 18000, "timeout": 600, "cpus": 2, "env": {"VERIF_FULL_CHANNEL": "1"}}],
+            "thorough": [{"test": "TestC06", "shards": 16, "checks": 1600000, "timeout": 3000}, {"test": "TestC06", "shards": 4, "checks": 200000, "timeout": 3000, "cpus": 2, "env": {"VERIF_FULL_CHANNEL": "1"}}],
         },
     },
     "C09": {
@@ -252,8 +254,8 @@ PROPS.update({
         "rule": BP_RULE % "NON-TRIVIAL = gated scenario with >=2 exports (bubble) / every stress run",
         "assumptions": BP_ASSUME + ["no claim of exhaustiveness over interleavings; deadlock = still blocked in the virtual instant after everything was released"],
         "jobs": {
-            "quick": [{"test": "TestC11", "shards": 8, "checks": 80000, "timeout": 600}, {"test": "TestC11", "shards": 3, "checks": 9000, "timeout": 600, "race": True}, {"test": "TestStressC11", "shards": 4, "checks": 80, "timeout": 600, "race": True}],
-            "thorough": [{"test": "TestC11", "shards": 10, "checks": 1000000, "timeout": 3000}, {"test": "TestC11", "shards": 4, "checks": 100000, "timeout": 3000, "race": True}, {"test": "TestStressC11", "shards": 4, "checks": 3000, "timeout": 3000, "race": True}],
+            "quick": [{"test": "TestC11", "shards": 8, "checks": 80000, "timeout": 600}, {"test": "TestC11", "shards": 3, "checks": 9000, "timeout": 600, "race": True}, {"test": "TestStressC11", "shards": 4, "checks": 80, "timeout": 600, "race": True}, {"test": "TestC11", "shards": 3, "checks": 18000, "timeout": 600, "cpus": 2, "env": {"VERIF_FULL_CHANNEL": "1"}}],
+            "thorough": [{"test": "TestC11", "shards": 10, "checks": 1000000, "timeout": 3000}, {"test": "TestC11", "shards": 4, "checks": 100000, "timeout": 3000, "race": True}, {"test": "TestStressC11", "shards": 4, "checks": 3000, "timeout": 3000, "race": True}, {"test": "TestC11", "shards": 4, "checks": 200000, "timeout": 3000, "cpus": 2, "env": {"VERIF_FULL_CHANNEL": "1"}}],
         },
     },
     "C18": {
